@@ -27,7 +27,7 @@ const rule = "cases = (call sequence over {WriteHeader 100/150/101/200/404/500, 
 	"underlying writer capability set in {plain, +ReaderFrom, +Flusher, +both}, underlying writer failing after k in {never,0,2,4} body bytes); all sequences up to a bounded length are enumerated, random longer ones; " +
 	"plus a successful Hijack followed by ordinary requests on the recycled context; distinct by (sequence, capability set, k); non-trivial when the sequence contains a body operation or more than one header call"
 
-var opNames = []string{"WH100", "WH150", "WH101", "WH200", "WH404", "WH500", "W0", "W3", "WS3", "RF0", "RF1", "RF5", "RFfail2", "RFfail0", "Flush", "RF5eof", "RFfail2now"}
+var opNames = []string{"WH100", "WH150", "WH101", "WH200", "WH404", "WH500", "W0", "W3", "WS3", "RF0", "RF1", "RF5", "RFfail2", "RFfail0", "Flush", "RF5eof", "RFfail2now", "RFlim0", "RFlimneg"}
 
 type event struct {
 	kind string // header, body, flush
@@ -239,6 +239,11 @@ func exec(f *fox.Router, seq []int, capSet, limit int) result {
 				n, err = w.ReadFrom(&failingReader{data: next(5), eager: true})
 			case "RFfail2now":
 				n, err = w.ReadFrom(&failingReader{data: next(2), fail: true, eager: true})
+			case "RFlim0":
+				// what io.CopyN(w, src, 0) and http.ServeContent of an empty document hand over
+				n, err = w.ReadFrom(&io.LimitedReader{R: strings.NewReader("never read"), N: 0})
+			case "RFlimneg":
+				n, err = w.ReadFrom(&io.LimitedReader{R: strings.NewReader("never read"), N: -1})
 			case "Flush":
 				err = w.FlushError()
 				if capSet < 2 {
@@ -727,6 +732,19 @@ func helpers(run *kit.Run) {
 	cases = append(cases, hc{"Blob 300000 bytes", func(c fox.Context) error {
 		return c.Blob(200, "application/x-verif", []byte(strings.Repeat("b", 300000)))
 	}, 200, "application/x-verif", strings.Repeat("b", 300000), "", nil})
+	for _, code := range []int{200, 404} {
+		code := code
+		cases = append(cases, hc{fmt.Sprintf("Stream %d from an empty source", code), func(c fox.Context) error { return c.Stream(code, "text/x-stream", strings.NewReader("")) }, code, "text/x-stream", "", "", nil})
+		cases = append(cases, hc{fmt.Sprintf("Stream %d from an exhausted io.LimitedReader", code), func(c fox.Context) error {
+			return c.Stream(code, "text/x-stream", &io.LimitedReader{R: strings.NewReader("beyond the limit"), N: 0})
+		}, code, "text/x-stream", "", "", nil})
+	}
+	cases = append(cases, hc{"Stream from io.LimitReader(src, 3)", func(c fox.Context) error {
+		return c.Stream(200, "text/x-stream", io.LimitReader(strings.NewReader("abcdef"), 3))
+	}, 200, "text/x-stream", "abc", "", nil})
+	cases = append(cases, hc{"Stream from a LimitedReader with a negative limit", func(c fox.Context) error {
+		return c.Stream(200, "text/x-stream", &io.LimitedReader{R: strings.NewReader("abcdef"), N: -1})
+	}, 200, "text/x-stream", "", "", nil})
 	cases = append(cases, hc{"Stream from an eager-EOF reader", func(c fox.Context) error {
 		return c.Stream(200, "text/x-stream", &failingReader{data: "eager", eager: true})
 	}, 200, "text/x-stream", "eager", "", nil})
